@@ -110,6 +110,21 @@ pub fn alphabet(scheme: Scheme, init_seq: u64, own_pub: &[u8], other_pub: &[u8])
     a.push(Op::Insert(k("secp256k1"), Val::B(other_secp.clone())));
     a.push(Op::Insert(k("secp256k1"), Val::L(vec![other_secp.clone()])));
     a.push(Op::Insert(k("secp256k1"), Val::B(vec![])));
+    if !cfg!(miri) {
+        // the 65-byte SEC1 forms of the same key: uncompressed (04) and hybrid (06/07), and a 65-byte non-point
+        if let Some((_, u)) = crate::refimpl::sig::secp_normalise(&other_secp) {
+            let mut unc = vec![4u8];
+            unc.extend_from_slice(&u);
+            let mut hyb = unc.clone();
+            hyb[0] = 6 + (u[63] & 1);
+            a.push(Op::Insert(k("secp256k1"), Val::B(unc.clone())));
+            a.push(Op::Insert(k("secp256k1"), Val::B(hyb.clone())));
+            a.push(Op::RemoveInsert(vec![], vec![(k("secp256k1"), hyb)]));
+            let mut bad = unc;
+            bad[64] ^= 1;
+            a.push(Op::Insert(k("secp256k1"), Val::B(bad)));
+        }
+    }
     a.push(Op::Insert(k("ed25519"), Val::B(other_ed.clone())));
     a.push(Op::Insert(k("ed25519"), Val::L(vec![])));
     a.push(Op::Insert(k("ed25519"), Val::B(vec![1, 2, 3, 4, 5])));
